@@ -71,10 +71,10 @@ func c01(c *core.Ctx, r *core.Report) {
 	r.NotDecided = []string{"numerical equality itself (follows from the decided shape)", "internals of prometheus.SummaryVec"}
 
 	var runner *ssa.Function
-	var body, frame ssa.CallInstruction
+	var body ssa.CallInstruction
 
 	rule(r, "C01.R1", "on every path of the iteration runner, progress.Stats.Record and Metrics.RecordIterationResult are each called exactly once; likewise in the drop recorder, with DroppedResult", func() {
-		runner, body, frame = iterationRunner(c)
+		runner, body, _ = iterationRunner(c)
 		r.Exists("iteration-runner", c.Pos(runner.Pos()), "%s invokes the scenario RunFn at %s", core.FuncName(runner), an.Pos(c, body))
 		check := func(fn *ssa.Function, what string, pred func(*ssa.Function) bool) {
 			exits := an.PathCount(fn, an.CallWeight(func(_ ssa.CallInstruction, t *ssa.Function) bool { return t != nil && pred(t) }, flatDepth))
@@ -110,18 +110,22 @@ func c01(c *core.Ctx, r *core.Report) {
 			r.Undecided("anchor", "-", "iteration runner not resolved")
 			return
 		}
-		var flags []ssa.Value
+		_, bodyEv, _ := userRunner(c, "RunFn", func(t *ssa.Function) bool { return isStatsRecord(t) || isMetricsIter(t) })
+		stopAtOutcome := func(f *ssa.Function) bool {
+			return isMethod(f, testingPkg, "T", "Failed") || an.IsFunc(f, metricsPkg, "Result")
+		}
+		var flags []an.FV
 		var evs []recEvent
 		for _, e := range recordEvents(runner) {
 			if e.Kind == "setup" {
 				continue
 			}
 			evs = append(evs, e)
-			v := an.Strip(e.Result)
-			if rc, ok := v.(*ssa.Call); ok && an.IsFunc(an.Callee(rc), metricsPkg, "Result") {
-				flags = append(flags, an.Strip(e.Ev.Translate(rc.Call.Args[0])))
+			res := an.EventFV(e.Ev, resultArg(e.Ev.Call())).Resolve(stopAtOutcome)
+			if rc, ok := res.V.(*ssa.Call); ok && an.IsFunc(an.Callee(rc), metricsPkg, "Result") {
+				flags = append(flags, an.FV{V: rc.Call.Args[0], F: res.F}.Resolve(stopAtOutcome))
 			} else {
-				flags = append(flags, v)
+				flags = append(flags, res)
 			}
 		}
 		if !r.Floor("recording calls", len(evs), 2) {
@@ -130,40 +134,39 @@ func c01(c *core.Ctx, r *core.Report) {
 		key := core.FuncName(runner) + "#outcome"
 		same := true
 		for _, f := range flags {
-			if f != flags[0] {
+			if f.V != flags[0].V {
 				same = false
 			}
 		}
 		if !same {
 			var ds []string
 			for i, f := range flags {
-				ds = append(ds, an.Pos(c, evs[i].Ev.Instr)+": "+an.D().Of(f))
+				ds = append(ds, an.Pos(c, evs[i].Ev.Instr)+": "+an.D().Of(f.V))
 			}
 			r.Violation(key, an.Pos(c, evs[0].Ev.Instr), "the recording calls classify the iteration from different reads of the outcome (%s): a failure landing between them is counted differently by the result and the metrics", strings.Join(ds, "; "))
 			return
 		}
-		fc, ok := flags[0].(*ssa.Call)
+		fc, ok := flags[0].V.(*ssa.Call)
 		if !ok || !isMethod(an.Callee(fc), testingPkg, "T", "Failed") {
-			r.Violation(key, an.Pos(c, evs[0].Ev.Instr), "the recorded outcome is %s, not metrics.Result(T.Failed())", an.D().Of(flags[0]))
+			r.Violation(key, an.Pos(c, evs[0].Ev.Instr), "the recorded outcome is %s, not metrics.Result(T.Failed())", an.D().Of(flags[0].V))
 			return
 		}
-		tDesc := stripCaret(an.D().Of(fc.Call.Args[0]))
-		bodyT := stripCaret(an.D().Of(iterationBodyT(c)))
-		if tDesc != bodyT {
-			r.Violation(key, an.Pos(c, fc), "outcome read from %s but the body ran with %s", tDesc, bodyT)
+		if !sameHandle(an.FV{V: fc.Call.Args[0], F: flags[0].F}, an.EventFV(bodyEv, bodyEv.Call().Common().Args[0])) {
+			r.Violation(key, an.Pos(c, fc), "outcome read from %s but the body ran with %s", stripCaret(an.D().Of(fc.Call.Args[0])), stripCaret(an.D().Of(bodyEv.Call().Common().Args[0])))
 			return
 		}
-		if fc.Parent() != runner || !an.Dominates(frame, fc) {
-			r.Violation(key, an.Pos(c, fc), "T.Failed() is not read in the runner's frame after the body call at %s: failures of the body are not seen", an.Pos(c, frame))
+		readEv := an.Event{Instr: fc, Frame: flags[0].F}
+		if readEv.RootFn() != runner || !an.Before(bodyEv, readEv) {
+			r.Violation(key, an.Pos(c, fc), "T.Failed() is not read in the runner's frame after the body call at %s: failures of the body are not seen", an.Pos(c, bodyEv.Instr))
 			return
 		}
 		for _, e := range evs {
-			if !an.Dominates(fc, e.Ev.Root()) {
+			if !an.Before(readEv, e.Ev) {
 				r.Violation(key, an.Pos(c, e.Ev.Instr), "recording call not dominated by the outcome read")
 				return
 			}
 		}
-		r.OK(key, an.Pos(c, fc), "single read %s after the body call feeds both records through metrics.Result", an.D().Of(flags[0]))
+		r.OK(key, an.Pos(c, fc), "single read %s after the body call feeds both records through metrics.Result", an.D().Of(flags[0].V))
 	})
 
 	sites := durationAtomics(c)
@@ -760,6 +763,11 @@ func dropRecorderFns(c *core.Ctx, r *core.Report, runner *ssa.Function) []*ssa.F
 				}
 				if _, isParam := an.Strip(e.Result).(*ssa.Parameter); isParam {
 					continue
+				}
+				if rc, isCall := an.Strip(e.Result).(*ssa.Call); isCall && an.IsFunc(an.Callee(rc), metricsPkg, "Result") {
+					if _, isParam := an.Strip(rc.Call.Args[0]).(*ssa.Parameter); isParam {
+						continue // a wrapper taking the failed flag
+					}
 				}
 				// functions that merely reach the runner are fine (their events are the runner's)
 				if len(an.FlatCalls(fn, flatDepth, func(_ ssa.CallInstruction, t *ssa.Function) bool { return t == runner })) > 0 {
